@@ -220,6 +220,8 @@ def make_source(st, spec, led_name):
 
 
 def fdict(f, with_line=True):
+    # print first: printing a feature must not change what it holds
+    line = str(f) if with_line else None
     d = {
         "id": f.id,
         "cols": [f.seqid, f.source, f.featuretype, f.start, f.end, f.score, f.strand, f.frame],
@@ -228,7 +230,8 @@ def fdict(f, with_line=True):
         "bin": f.bin,
     }
     if with_line:
-        d["line"] = str(f)
+        d["line"] = line
+        d["line2"] = str(f)
     return d
 
 
